@@ -71,6 +71,29 @@ func runHistory(backend string, h []L, checkAll bool) (e *env, what string) {
 	return e, ""
 }
 
+// runHistoryLoose replays a history on a fresh database with a read-back after every letter;
+// letters are applied without the BFS phase's legality filter (more than two candidates).
+func runHistoryLoose(backend string, h []L) (e *env, what string) {
+	e, err := openEnv(backend, "")
+	if err != nil {
+		return nil, "harness: open: " + err.Error()
+	}
+	defer func() {
+		if p := recover(); p != nil {
+			what = fmt.Sprintf("panic: %v", p)
+		}
+	}()
+	for _, l := range h {
+		if w := e.apply(l); w != "" {
+			return e, w
+		}
+		if w := e.readBack(); w != "" {
+			return e, fmt.Sprintf("after %s: %s", l, w)
+		}
+	}
+	return e, ""
+}
+
 // nextLetters enumerates the legal next letters of a history.
 func nextLetters(e *env, maxCands int, maxVersion uint64) []L {
 	m := e.ref
@@ -234,6 +257,74 @@ func runC06(r *ev.Run) {
 		r.Add("states", int64(len(seen)))
 		r.Set("states_"+backend, len(seen))
 		r.Set("letter_depth_"+backend, level)
+	}
+	// Three competing candidates: after [commit(v1,add2) finalize(v1)] every ordered triple of distinct
+	// batches is committed as three candidates of version 2, any of them is finalized, one more version is
+	// built on top and version 1 is pruned; full read-back after every letter.
+	{
+		names := []string{"add", "del", "readd", "mod", "clear", "modall"}
+		type tri struct {
+			be      string
+			a, b, c int
+			ch      int
+		}
+		var tris []tri
+		for _, be := range []string{"badger", "pathbadger"} {
+			for a := range names {
+				for b := range names {
+					for c := range names {
+						if a == b || b == c || a == c {
+							continue
+						}
+						for ch := 0; ch < 3; ch++ {
+							tris = append(tris, tri{be, a, b, c, ch})
+						}
+					}
+				}
+			}
+		}
+		ev.ParallelRange(len(tris), r.Seed, func(i int) {
+			t := tris[i]
+			h := []L{{Op: "commit", V: 1, Batch: "add2"}, {Op: "finalize", V: 1},
+				{Op: "commit", V: 2, Batch: names[t.a]}, {Op: "commit", V: 2, Batch: names[t.b]}, {Op: "commit", V: 2, Batch: names[t.c]}}
+			e, what := runHistoryLoose(t.be, h)
+			if e != nil && what == "" {
+				// the finalize choice refers to the distinct candidates actually stored
+				n := len(e.ref.candsOf(2, node.RootTypeState))
+				ch := t.ch
+				if ch >= n {
+					ch = n - 1
+				}
+				rest := []L{{Op: "finalize", V: 2, Choice: ch}, {Op: "commit", V: 3, Batch: "mod"}, {Op: "finalize", V: 3}, {Op: "prune", V: 1}}
+				for _, l := range rest {
+					h = append(h, l)
+					if !e.applicable(l) {
+						what = fmt.Sprintf("harness: letter %s not applicable", l)
+						break
+					}
+					if what = e.apply(l); what != "" {
+						break
+					}
+					if w := e.readBack(); w != "" {
+						what = fmt.Sprintf("after %s: %s", l, w)
+						break
+					}
+				}
+			}
+			if e != nil {
+				e.ndb.Close()
+			}
+			r.Add("transitions", int64(len(h)))
+			r.Add("three_candidate_histories", 1)
+			if what == "" {
+				return
+			}
+			if strings.HasPrefix(what, "harness:") {
+				r.HarnessError("%s [%s]", what, historyString(h))
+				return
+			}
+			r.Violate(ev.Violation{Engine: "dbmc", Key: fmt.Sprintf("c06 %s [%s]", t.be, historyString(h)), What: fmt.Sprintf("%s, history [%s]: %s", t.be, historyString(h), what), Artefact: c06Artefact{Backend: t.be, History: h}})
+		})
 	}
 	r.Set("max_versions", int(maxVersion))
 	r.Set("max_candidates_per_version", maxCands)
